@@ -124,7 +124,69 @@ def c03_streams(run, tier, seed):
         pipeline.oracle_c03(run, s, pr, r)
         pipeline.oracle_c02(run, s, pr, r)
     s.sample({"rom": progs[0]["rom"], "src": progs[0]["src"][:300]})
-    return [s]
+    return [s, c03_ram_sections(run, tier, seed)]
+
+
+def c03_ram_sections(run, tier, seed):
+    """code stored in ROM but assembled for RAM: *= and @= whose target is a RAM bank (built-in 7E/7F, or a writable
+    user mapping of any bank size: cartridge RAM 70-7D:0000-7FFF, low-RAM mirrors) in the middle of a program"""
+    rng = core.rng_for(seed, "c03-ram")
+    s = core.Stream("S4-ram-sections", "programs that move to RAM addresses in mid-stream: `*=` and `@=` to built-in work RAM and to writable user mappings with 32K / 8K / 64K bank sizes, after bytes were emitted and followed by code, labels and references to them; oracle: nothing already stored is replaced (a RAM target has no offset to move to: storage continues), run addresses advance by the number of bytes emitted (RAM: +n), labels = run address; compared with the model; non-trivial = distinct (mapping, directive sequence)")
+    progs = []
+    for i in range(40 if tier == "quick" else 400):
+        user = rng.random() < 0.6
+        lines, regions = [], None
+        if user:
+            rmask = rng.choice([0x8000, 0x8000, 0x2000, 0x10000])
+            rlo = rng.choice([0x70, 0x60, 0x40])
+            rhi = rlo + rng.randrange(0, 0xE)
+            romask = rng.choice([0x8000, 0x10000])
+            lines.append(f".map identifier=1 bank_range=0x00,0x3f addr_range=0x{0x10000 - romask:x},0xffff mask=0x{romask:x}")
+            lines.append(f".map identifier=2 bank_range=0x{rlo:x},0x{rhi:x} addr_range=0,0x{rmask - 1:x} mask=0x{rmask:x} writable=1")
+            regions = [(0, 0x3F, romask, False), (rlo, rhi, rmask, True)]
+            ram_addr = lambda: (rng.randrange(rlo, rhi + 1) << 16) | rng.choice([0, 0x100, rng.randrange(0, rmask - 0x100), rng.randrange(0, 0xFF00)])  # noqa: E731
+            rom_addr = lambda: (rng.randrange(0, 0x40) << 16) | rng.randrange(0x10000 - romask, 0xFF00)  # noqa: E731
+            rom = "low_rom"
+        else:
+            rom = rng.choice(["low_rom", "high_rom"])
+            ram_addr = lambda: 0x7E0000 + rng.randrange(0x1FF00)  # noqa: E731
+            rom_addr = (lambda: (rng.randrange(0, 0x60) << 16) | rng.randrange(0x8000, 0xFF00)) if rom == "low_rom" else (lambda: ((0xC0 + rng.randrange(0, 0x3F)) << 16) | rng.randrange(0, 0xFF00))  # noqa: E731
+        lines.append(f"*=0x{rom_addr():06x}")
+        lines.append(".db " + ", ".join(str(rng.randrange(256)) for _ in range(rng.randrange(1, 9))))
+        seq = []
+        for k in range(rng.randrange(1, 4)):
+            d = rng.choice(["*=", "@=", "@=", "*=rom"])
+            seq.append(d)
+            if d == "*=rom":
+                lines.append(f"*=0x{rom_addr():06x}")
+            else:
+                lines.append(f"{d}0x{ram_addr():06x}")
+            for _ in range(rng.randrange(1, 4)):
+                c = rng.random()
+                if c < 0.3:
+                    lines.append(rng.choice(["nop", "lda.w #0x1234", "sta.l 0x7e0000,x", "rts"]))
+                elif c < 0.55:
+                    lines.append(".db " + ", ".join(str(rng.randrange(256)) for _ in range(rng.randrange(1, 6))))
+                else:
+                    nm = f"l{len(lines)}"
+                    lines.append(f"{nm}:")
+                    lines.append(rng.choice([f".dl {nm}", f".dw {nm} & 0xffff", f"lda.l {nm}", f"jmp.w {nm}", f".pointer {nm}"]))
+        pr = raw(rom, "\n".join(lines) + "\n")
+        if regions:
+            pr["regions"] = regions
+        pr["meta"] = (rom, tuple(seq), regions and regions[1][2])
+        progs.append(pr)
+    for pr, r, m in run.run(progs):
+        s.cases += 1
+        s.count(stat_key(pr, r))
+        s.nontrivial.add(pr["meta"])
+        run.correspond(s, pr, r, m)
+        pipeline.oracle_c03(run, s, pr, r)
+        pipeline.oracle_c02(run, s, pr, r)
+        if r["status"] != "ok":
+            s.violate({"src": pr["src"], "rom": pr["rom"]}, "assembled", r.get("exc") or r.get("error"), "a valid program with sections assembled for RAM is rejected")
+    s.sample({"rom": progs[0]["rom"], "src": progs[0]["src"][:300]})
+    return s
 
 
 # ------------------------------------------------------------------------------------------------ C05
@@ -261,7 +323,7 @@ def c07_streams(run, tier, seed):
             bins["blob.bin"] = bytes(rng.randrange(256) for _ in range(min(ln, 64))) * (ln // 64 + 1)
             bins["blob.bin"] = bins["blob.bin"][:ln]
             extra = ".incbin 'blob.bin'\nafterbin:\n.dw blob_bin__size\n.dl blob_bin\n"
-        txt = "".join(rng.choice(["a", "b", "c", " ", "X", "Y", "Z", "0", "9", "é", "\\'"]) for _ in range(rng.randrange(0, 6)))
+        txt = "".join(rng.choice(["a", "b", "c", " ", "X", "Y", "Z", "0", "9", "é", "\\'", "[0x41]", "[0x7f]", "[", "]", "[0x", "{", "}", ";", "/*", ",", "\\n", "%", "\t"]) for _ in range(rng.randrange(0, 6)))
         src = f"*=0x{base:06x}\nstart:\n.{kind} " + ", ".join(items) + f"\nafter:\n.ascii '{txt}'\nafter2:\n{extra}end:\n"
         progs.append(raw("low_rom", src, bins=bins, meta=(kind, n, base, total, txt)))
     # long operand lists (a data table of a thousand entries on one directive)
